@@ -114,9 +114,28 @@ def check_tb(ctx, rep):
         f = prog.func1(CQ + q)
         g = cfg_of(f)
         brs = [x for x in walk(f.body) if x.get("kind") == "BreakStmt"]
-        if not brs:
-            rep.unknown("TB", f.decl, f, q, "no break in the segment scan (shape changed)")
-            continue
+
+        class _E:          # an exit condition folded into the loop condition: the scan stops when the conjunct is false
+            def __init__(self, ast):
+                self.ast, self.val = ast, False
+        folded = []
+        for lp in [x for x in walk(f.body) if x.get("kind") == "ForStmt"]:
+            ch_ = [c_ for c_ in inner(lp) if isinstance(c_, dict)]
+            cond = ch_[2] if len(ch_) >= 5 and ch_[2].get("kind") else None
+            stack = [strip(cond)] if cond is not None else []
+            while stack:
+                e_ = stack.pop()
+                if e_.get("kind") == "BinaryOperator" and e_.get("opcode") == "&&":
+                    stack += [strip(c_) for c_ in children(e_)]
+                    continue
+                cc_ = canon(e_)
+                li_ = for_loop_info(lp)
+                iv_ = li_["var"][:2] if li_ else None
+                if cc_[0] == "bin" and cc_[1] in ("<", "!=", "<=") and cc_[2][0] == "var" and (cc_[3][0] == "call" or cc_[2][:2] == iv_) and \
+                        not any(t[0] == "field" for t in subterms(cc_[3])):
+                    continue       # the index bound
+                folded.append((lp, [_E(e_)]))
+        sites = []
         for b in brs:
             n = g.node_for(b)
             preds, seen, edges = list(n.pred), set(), []
@@ -129,6 +148,12 @@ def check_tb(ctx, rep):
                     edges.append(p)
                 elif p.kind == "join":
                     preds.extend(p.pred)
+            sites.append((b, edges))
+        sites += folded
+        if not sites:
+            rep.holds("TB", f.decl, f, "%s scans every segment (no early exit)" % q.split("::")[-1])
+            continue
+        for b, edges in sites:
             verdict = None
             for e in edges:
                 c = canon(e.ast)
@@ -169,7 +194,11 @@ def check_space(ctx, rep):
             cc = canon(ast)
             if cc[0] == "bin" and cc[1] in ("<", ">=", ">", "<="):
                 txt = pretty(cc)
-                if "remainingSpace" in txt and "rowLegalizers_[%s]" % rowp.get("name") in txt and "cellWidth_[%s]" % cellp.get("name") in txt:
+                rv, cv_ = ("var", rowp.get("id"), rowp.get("name")), ("var", cellp.get("id"), cellp.get("name"))
+                rem_on_row = any(t[0] == "call" and str(t[1]).endswith("RowLegalizer::remainingSpace") and t[2][0] == "index" and t[2][2] == rv
+                                 for t in subterms(cc))
+                width_of_cell = any(t[0] == "index" and t[1][0] == "field" and str(t[1][1]).endswith("cellWidth_") and t[2] == cv_ for t in subterms(cc))
+                if rem_on_row and width_of_cell:
                     # remaining < width must be false (or remaining >= width true)
                     l, r = cc[2], cc[3]
                     lrem = "remainingSpace" in pretty(l)
@@ -186,6 +215,16 @@ def check_space(ctx, rep):
         n = gt.node_for(x)
         ok = False
         for ast, val, _e in gt.dom_edges(n):
+            if val == "iter":
+                # inside a loop over the free intervals: at least one exists
+                ch_ = [c_ for c_ in inner(ast) if isinstance(c_, dict)]
+                rng = ch_[1] if len(ch_) > 1 else None
+                vd = [d_ for d_ in inner(rng) if d_.get("kind") == "VarDecl"] if rng and rng.get("kind") == "DeclStmt" else []
+                if vd and children(vd[0]):
+                    rc = expand_locals(ctx, t, canon(children(vd[0])[-1]))
+                    if rc[0] == "call" and rc[1] == CQ + "TetrisLegalizer::getPossibleIntervals":
+                        ok = True
+                continue
             cc = expand_locals(ctx, t, canon(ast))
             if cc[0] == "call" and cc[1] == "empty" and val is False and cc[2][0] == "call" and cc[2][1] == CQ + "TetrisLegalizer::getPossibleIntervals":
                 ok = True
